@@ -5,6 +5,7 @@ CONSTANTS
   MaxF = 0
   UseStop = FALSE
   Flat = FALSE
+  Pre = FALSE
 SPECIFICATION Spec
 INVARIANTS InvExact InvRoundTrip InvNearest InvBounded PrintSchedules
 CHECK_DEADLOCK FALSE
